@@ -348,6 +348,8 @@ def _into(m, a, c):
         return v
     if isinstance(v, Term):
         return Term("into", v, targs[1] if len(targs) > 1 else "?")
+    if len(targs) >= 2 and targs[0].lstrip("&").startswith("bitcoin::") and targs[1].startswith("bitcoin::"):
+        return v     # rust-bitcoin newtype conversions (hash -> PubkeyHash / ScriptHash ...) keep the value
     if len(targs) >= 2:
         # a crate-local `impl From<T> for U`
         from .tystr import type_head
@@ -711,6 +713,8 @@ def _vec_is_empty(m, a, c):
     v = deref(a[0])
     if isinstance(v, Term):
         return Term("is_empty", v)
+    if hasattr(v, "length") and isinstance(getattr(v, "length"), int):
+        return v.length == 0
     return len(items_of(v)) == 0
 
 
@@ -853,6 +857,8 @@ def _index(m, a, c):
             if lo > hi or hi > len(it):
                 raise Panic("slice index out of range")
             return PyVec(it[lo:hi])
+    if hasattr(v, "kind") and hasattr(v, "extra") and isinstance(i, int) and getattr(m, "tok_index", None):
+        return m.tok_index(v, i)
     if isinstance(v, str) and isinstance(i, Adt) and i.path.startswith("std::ops::Range"):
         b = v.encode("utf-8")
         lo = i.fields.get("start", 0)
